@@ -13,3 +13,5 @@ CONSTANTS
   InitKinds = "any"
   WithDrain = FALSE
   PartFix = TRUE
+  SubAt = "first"
+  SyncSteps = FALSE
